@@ -81,7 +81,10 @@ PROVED = {
  "C04": ("Theorem C04_refines: for every configuration, input, initial capacity (0 included), every read script in which the source never returns "
          "Ok(0) before the end and never fails, and every next()/try_recover() sequence, the buffered machine (window, capacity, compaction-free "
          "refill loop) yields exactly the run of the abstract reader Pure.v on the input; hence identical items/offsets/errors for any two chunkings "
-         "and capacities. EOF pauses (Proofs/Pauses.v, PausesLookahead.v), with end-of-stream closing disabled: C04_pause_boundary_noop — a temporary "
+         "and capacities. Failing sources (Proofs/RefineFail.v): C04_refines_until_io_error — with a script pre ++ Fail code :: rest (pre calm, rest arbitrary) the "
+         "outcomes up to the first reported source error are a prefix of the abstract run, including the Ends (or the rolled-up buffered master) delivered between "
+         "consuming the Fail and reporting it; the one exception is a try_recover() called while the error is still queued (alternative (iii), exhibited as "
+         "C05_recover_while_io_error_queued); nothing is claimed after the reported error (C05_after_io_error_unspecified shows why). EOF pauses (Proofs/Pauses.v, PausesLookahead.v), with end-of-stream closing disabled: C04_pause_boundary_noop — a temporary "
          "Ok(0) met at a tag boundary is a no-op that yields None and leaves the abstract state unchanged; C04_pause_run_many — for a run whose pauses "
          "are all met at tag boundaries, repeated drains yield exactly the slice run's results with one None inserted per boundary pause (any capacity, any "
          "chunks between the pauses, any buffered set); C04_step_nopause_refines — every call that consumes no pause refines the abstract reader; "
@@ -188,7 +191,8 @@ PROVED = {
          "Buffered masters (Proofs/BufferedNesting.v, by composition with C08): C06_buffered_clean_well_nested / _rooted / _items_pinned / _extents / "
          "_pinned_all — for ANY buffered set, a drain without error outcome (within the driver's item limit) unrolls to a tag sequence the same checkers accept, "
          "from the same pinned bases; with an error inside a buffered master the statement is false (known finding D29: C06_buffered_error_counterexample, "
-         "rejected from every base). "
+         "rejected from every base); C06_buffered_eof_closes_all(_rooted/_pinned) — with EOF closing on, a buffered drain that ends with None leaves nothing open "
+         "(no item-limit side condition). "
          "(Proofs/Extents.v) with oversized children not tolerated: C06_contained — every reachable state keeps the cursor inside every open known-size "
          "master, ranges nested (grow_frames of try_recover preserves it); C06_element_inside — every element read lies inside the byte range of each "
          "enclosing known-size master, a known-size master's whole declared range too; C06_end_at_exhaustion — the End of a known-size master is queued "
@@ -227,9 +231,12 @@ PROVED = {
          "the unbuffered items, followed by the SAME error e (the partial children of the buffered master are dropped); C08_master_end_found — with EOF "
          "closing the End of an open buffered master is always found (the EOF branch of buffer_master is unreachable); step simulation incl. steps that "
          "queue an error; algebraic core (roll-up / unroll, same-id nesting). C08_buffered_run_unrolls needs the unbuffered run to stay within the "
-         "driver's item limit (no OLimit outcome; C08_limit_ex shows why; the _short form avoids it). With EOF closing OFF only the first direction "
-         "(buffered clean => unrolled = unbuffered) is proved; the clean/error directions are then NOT proved for any input — the known divergence "
-         "there is finding D18 (EOF inside a buffered master with emit_master_end_when_eof(false)), other inputs rest on the correspondence run.", ""),
+         "driver's item limit (no OLimit outcome; C08_limit_ex shows why; the _short form avoids it). Whatever the EOF-closing setting (Proofs/BufferedEof.v): C08_error_prefix_any — an unbuffered error e gives the buffered "
+         "prefix followed by the same e; C08_clean_stays_clean_open — an unbuffered clean drain gives a clean buffered drain with the same unrolled tags "
+         "PROVIDED no master with a buffered id is left open at the end of the unbuffered drain (always so with EOF closing on: C08_eof_final_stack_empty); "
+         "without that proviso it is false — C08_noeof_counterexample is known finding D18 (input ends inside a buffered master, EOF closing off); "
+         "C08_buffered_none_export / C08_none_iff — a buffered drain that ends with None corresponds to an unbuffered drain that ends with None (for any item limit "
+         "that does not cut it).", ""),
  "C12": ("Theorems (Proofs/Partial.v, CutExists.v): C12_every_cut_partial — for every strict configuration, every conforming document and EVERY cut "
          "position k, reading the first k bytes yields out_tdoc (cut_doc f k): the items of everything complete (a master's Start once its header is "
          "complete), then on a tag boundary the Ends of all open masters and None, and inside a tag the Ends of the known-size masters complete at that "
